@@ -99,6 +99,22 @@ type c18Deep struct {
 	L []c18Q    `json:"l"`
 }
 
+// c18Shadow: a field three embedded levels down has the same JSON name as a shallower one of a LATER embedded struct (which wins)
+type C18DeepE struct {
+	Name int `json:"name"`
+	Deep int `json:"deep"`
+}
+type C18MidE struct{ C18DeepE }
+type C18TopE struct{ C18MidE }
+type C18ShallowE struct {
+	Name string `json:"name"`
+}
+type c18Shadow struct {
+	C18TopE
+	C18ShallowE
+	Own bool `json:"own"`
+}
+
 // c18PtrRecv: its JSON form (a string) comes from a marshaler with a POINTER receiver
 type c18PtrRecv struct{ A, B int }
 
@@ -179,6 +195,8 @@ func c18FieldType(kind string) (reflect.Type, bool) {
 		return reflect.TypeOf((*string)(nil)), false
 	case "ptr-struct":
 		return reflect.TypeOf((*c18Inner)(nil)), false
+	case "emb-shadow":
+		return reflect.TypeOf(c18Shadow{}), false
 	case "ptr-bigint":
 		return reflect.TypeOf((*big.Int)(nil)), false
 	case "slice-ptr-bigint":
